@@ -163,3 +163,65 @@ def c18(work, tier, seed, replay):
 
 
 CHECKS["C18"] = c18
+
+
+# ----------------------------------------------------------------------------- C17 and the identity half of C12
+
+def startup_part(work, rep, tier, seed, prop):
+    """Omni.tla start-up machine: model check, enumerate configurations, run the real Main on them (one child process each),
+    walk the shipped configurations through Main's own functions, record the id every interface uses; judge with Trace_Start."""
+    rng = random.Random(seed)
+    build_driver()
+    c = {"MaxEntries": 2, "Origins": {"o1", "o2"}, "SchemePanics": True}
+    r = require_ok(tlc(work, "Omni", cfg_text(spec="SSpec", constants=c, invariants=["MapAndFeedersAgree"], properties=["StartsIffCoherent", "CoherentStarts"]),
+                       name="MC_Omni_startup", timeout=3000), "design check Omni start-up")
+    rep.add_model("Omni start-up (all configurations of 1..2 entries: 2 origins x 2 key classes x 7 feeder classes x 4 URL classes)", r)
+    lr = tlc(work, "Omni", cfg_text(spec="SSpec", constants=dict(c, MaxEntries=1), invariants=["EmitStart"]), name="list-omni1", timeout=600)
+    one = sorted(set(lr.prints("START")))
+    lr2 = tlc(work, "Omni", cfg_text(spec="SSpec", constants=c, invariants=["EmitStart"]), name="list-omni2", timeout=3000)
+    two = [x for x in sorted(set(lr2.prints("START"))) if len(json.loads(x)["entries"]) == 2]
+    rng.shuffle(two)
+    dups = [x for x in two if json.loads(x)["entries"][0]["origin"] == json.loads(x)["entries"][1]["origin"]]
+    take = one + dups[:40 if tier == "quick" else 400] + two[:80 if tier == "quick" else 1500]
+    gp, tp = work.path("gencfg.jsonl"), work.path("start.ndjson")
+    open(gp, "w").write("\n".join(take) + "\n")
+    o, dt = run_driver(["config", "-in", gp, "-out", tp, "-repo", REPO, "-dir", work.sub("cfg"), "-workers", str(NCPU)], timeout=3000)
+    rep.notes.append(o.strip() + " (%.0fs)" % dt)
+    events = read_ndjson(tp)
+    jr = tlc(work, "Trace_Start", cfg_text(spec="JSpec", constants=dict(c, TraceFile=tp), action_constraints=["Monitor"], postcondition="Done"), name="judge-start", workers=1,
+             timeout=1800, heap="8g")
+    if not jr.ok:
+        raise Inconclusive("start-up judge failed: %s\n%s" % (jr.error or jr.violated, jr.out[-3000:]))
+    fails = [["FAIL", f["id"], f["name"], f["i"], f["run"], f["k"], f["sig"]] for f in map(json.loads, jr.prints("FAIL"))]
+    seqfam.settle(rep, prop, fails, events, c)
+    gen = [e for e in events if e["e"] == "start.generated"]
+    ids = [e for e in events if e["e"] == "id"]
+    ship = [e for e in events if e["e"] == "start.shipped"]
+    rep.cov["evaluations"] += len(events)
+    rep.cov["traces_validated_against_impl"] += len(gen) + len(ship)
+    rep.cov["startup"] = {"shipped_files": [e["run"] for e in ship], "shipped_entries": [e["nentries"] for e in ship],
+                          "generated_configurations_run_through_Main": len(gen),
+                          "outcomes": {k: sum(1 for e in gen if e["outcome"] == k) for k in sorted({e["outcome"] for e in gen})},
+                          "identity_observations": len(ids), "interfaces": sorted({e["iface"] for e in ids})}
+    return events
+
+
+def c17(work, tier, seed, replay):
+    rep = Report("C17", tier, seed, "model_checking")
+    events = startup_part(work, rep, tier, seed, "C17")
+    ship = [e for e in events if e["e"] == "start.shipped"]
+    rep.cov["distinct_nontrivial"] = sum(e["nentries"] for e in ship)
+    rep.cov["rule"] = ("the embedded logs.yaml and logs_test.yaml OF THE WORKING TREE go, entry by entry, through the functions Main uses (YAML decoding incl. the feeder enum, config.NewLog, AsLogMap, "
+                       "each feeder started with a cancelled context and a refusing HTTP client so that its URL validation runs) and through omniwitness.Main itself in a child process; the start-up trace "
+                       "must be one the start-up machine of Omni.tla accepts for a coherent configuration and end in 'serving'; the machine itself is model-checked over all configurations of 1..2 entries and the "
+                       "real Main is run on them; distinct = entries of the shipped files")
+    rep.cov["exhaustive"] = True
+    for e in ship[:2]:
+        rep.sample({k: e[k] for k in ("run", "parsed", "nentries", "badkeys", "unknownfeeders", "mapok", "distinctids", "feederfailed", "feederpanicked", "main")})
+    rep.assumptions += ["reachability of the configured URLs is not part of the claim (no network): only well-formedness, scheme and required parameters"]
+    if rep.cov["distinct_nontrivial"] < 2:
+        raise Inconclusive("shipped configuration could not be read")
+    return rep.finish()
+
+
+CHECKS["C17"] = c17
